@@ -100,15 +100,29 @@ Theorem c11_plain_text_duplicate_names_refuted :
 Proof. exact plain_text_duplicate_names_refuted. Qed.
 Print Assumptions c11_plain_text_duplicate_names_refuted.
 
-(* select(a.c.x.label("foo"), b.c.x.label("foo"), literal_column("1 AS p, 2 AS q")): name matching, the
-   FIRST label object resolves to the SECOND column *)
-Theorem c11_name_matching_wrong_column_refuted :
-  lookup (keymap_of (raw_byname w_rcs2 false [(w_foo, KN); (w_foo, KN); (w_p, KN); (w_q, KN)]) 3 true) (KO 1) = Ok 1.
-Proof. exact name_matching_wrong_column_refuted. Qed.
-Print Assumptions c11_name_matching_wrong_column_refuted.
+(* REPAIRED by 0c26c9c (was c11_name_matching_wrong_column_refuted): select(a.c.x.label("foo"),
+   b.c.x.label("foo"), literal_column("1 AS p, 2 AS q")) - name matching with a repeated cursor name; the
+   first label object used to resolve to the second column, now every shared key raises *)
+Example c11_name_matching_duplicate_names_raise :
+  let km := keymap_of (raw_byname w_rcs2 false [(w_foo, KN); (w_foo, KN); (w_p, KN); (w_q, KN)]) 3 true in
+  map (lookup km) [KO 1; KO 2; w_foo; w_p; w_q] = [Raise Ambiguous; Raise Ambiguous; Raise Ambiguous; Ok 2; Ok 3].
+Proof. exact name_matching_duplicate_names_raise. Qed.
 
-(* GUARDED: whenever the detection runs ([dupes_path]: compiled statement whose distinct primary names
-   are fewer or more than its columns), every key that reaches two different cursor indexes raises *)
+(* unguarded since 0c26c9c: a primary name shared by two merged records (a name repeated in
+   cursor.description under name matching / textual matching, two equal labels under positional matching)
+   always switches the scan on - whatever the number of compiled columns *)
+Theorem c11_ambiguous_raises_shared_name : forall rw n tr k r1 r2,
+  n <> 0 -> In r1 rw -> In r2 rw -> m_idx r1 <> m_idx r2 ->
+  m_key r1 = m_key r2 ->
+  In k (m_rend r1 :: m_objs r1) -> In k (m_rend r2 :: m_objs r2) ->
+  lookup (keymap_of rw n tr) k = Raise Ambiguous.
+Proof. exact ambiguous_raises_shared_name. Qed.
+Print Assumptions c11_ambiguous_raises_shared_name.
+
+(* GUARDED: whenever the detection runs ([dupes_path]: the number of distinct primary names differs from the
+   number of compiled columns or from the number of merged records), every key that reaches two different
+   cursor indexes raises.  What remains outside the guard: keys shared through SECONDARY names/objects while all
+   primary names are distinct (c11_ambiguous_raises_refuted), and plain text (no compiled columns) *)
 Theorem c11_ambiguous_raises_guarded : forall rw n tr k r1 r2,
   n <> 0 -> dupes_path rw n = true ->
   In r1 rw -> In r2 rw -> m_idx r1 <> m_idx r2 ->
@@ -215,3 +229,18 @@ Proof.
   split; [vm_compute; reflexivity|].
   intros c c' n [<-|[<-|[]]] [<-|[<-|[]]] _ _; reflexivity.
 Qed.
+
+(* REPAIRED by 6eaf5b0 (finding C11-wrapped-column-taken-for-repeat): two different expressions that report
+   the same _anon_name_label (cast(t.c.a, String), cast(t.c.a, Float)) - the second one is no repeat any more,
+   gets a dedupe label and keeps its lookup objects; the same expression twice still is a repeat *)
+Definition ex_wrapped (o : N) : cdesc :=
+  {| d_obj := o; d_hash := o; d_cls := CUnnamed; d_lit := false; d_table := false; d_render := true;
+     d_name := None; d_key := KN; d_tq := None; d_nonanon := None; d_anon_name := NP 10; d_anon_tq := NP 10;
+     d_exprlabel := None; d_proxy := KS (NP 10) |}.
+Example c11_ex_wrapped_not_repeat :
+  map p_repeated (gen_cpn StDisamb true [ex_wrapped 1; ex_wrapped 1; ex_wrapped 2]) = [false; true; false]
+  /\ map p_fallback (gen_cpn StDisamb true [ex_wrapped 1; ex_wrapped 2])
+     = [Some (NP 10, true); Some (NA 2 1 (NP a_anon), true)]
+  /\ In (KO 2) (rc_objs (nth 1 (fst (compile_select (fun n => n) StDisamb [ex_wrapped 1; ex_wrapped 2]))
+                              {| rc_keyname := KN; rc_name := KN; rc_objs := [] |})).
+Proof. vm_compute. split; [reflexivity|split; [reflexivity|]]. auto 10. Qed.
